@@ -63,6 +63,7 @@ def handleC13 (kind : String) (fs : List (String × String)) : String :=
   | "caps" => handleCaps fs
   | "fld" => handleOracle fs "fields"
   | "stall" => handleOracle fs s!"stall-{getD fs "enc" "?"}"
+  | "nacks" => handleOracle fs "nacks"
   | _ => "PARSE kind"
 
 
